@@ -8,7 +8,11 @@ TR_VALUES = {          # abstract id -> (twp, ns, rge, ew)
     3: (7, "S", 12, "E"),
     4: (23, "N", 101, "W"),
     5: (54, "N", 97, "W"),     # its bare spelling '54N-97W' is part of the spelling of value 1
+    6: (8, "N", 9, "E"),       # one-digit numbers, north-east
+    7: (30, "S", 5, "W"),      # south-west
+    8: (101, "S", 100, "E"),   # three-digit numbers
 }
+TR_POOL = [1, 2, 3, 4, 6, 7, 8]
 NS_WORD = {"N": ["N", "North", "N."], "S": ["S", "South", "S."]}
 EW_WORD = {"E": ["E", "East", "E."], "W": ["W", "West", "W."]}
 TR_TEMPLATES = [
